@@ -277,9 +277,28 @@ def part(run, tier, props=None):
                'rule': '%d random histories (1-14 ops, every fourth up to 120) of binary64 weights in seven styles (plain, 2^-40-scaled, 2^40..2^200-scaled, per-weight scale 2^-60..2^60, '
                        'decimal fractions incl. 1e-20); insert/update/remove of present keys, 30%% drained to empty at the end. After EVERY operation: stored weights and total_weight() '
                        'as exact rationals equal to the extracted model at rnd53; proved bounds evaluated with eps=2^-53 and gam(n) <= n eps/(1-n eps); %d arithmetic pairs for +,-,/' % (len(cases), len(acs))})
+    ev['observation_absorbed_total'] = probe_absorbed(EoN)
     run.coverage['float_side'] = ev
     run.assumptions += ['binary64 +,- are correctly rounded (IEEE-754 round-to-nearest-even) and equal rnd53 of Model/ListDictF.v outside overflow: proved for rnd53 (relative error 2^-53 for every rational), tied to this Python bit for bit on %d pairs and on every history' % len(acs)]
     return ev
+
+
+def probe_absorbed(EoN):
+    """not a verdict: records whether the run-level consequence of C16f_total_can_be_absorbed_to_zero is present (see
+    proposed_known_findings.json, key C16/_ListDict_/float-total-lost-below-eps-of-peak): two isolated infected nodes with recovery
+    weights 0.1 and 1e-20, tmax=inf; exact arithmetic ends with I = 0"""
+    try:
+        import networkx as nx, random as pyrandom
+        G = nx.Graph(); G.add_nodes_from([0, 1]); nx.set_node_attributes(G, {0: 0.1, 1: 1e-20}, 'rw')
+        st = pyrandom.getstate(); pyrandom.seed(0)
+        try:
+            t, S, I, R = EoN.Gillespie_SIR(G, 1.0, 1.0, initial_infecteds=[0, 1], recovery_weight='rw', tmax=float('Inf'))
+        finally:
+            pyrandom.setstate(st)
+        return {'entry': 'Gillespie_SIR', 'recovery_weights': [0.1, 1e-20], 'tmax': 'inf', 'I': [int(x) for x in I],
+                'ends_with_infected_node': bool(I[-1] > 0)}
+    except Exception as e:
+        return {'error': type(e).__name__}
 
 
 def wrap(run0, replay0):
